@@ -189,7 +189,7 @@ class _Res:
         return [f"{tag}={pick}" for pick, n, tag in self.trace]
 
 
-def run_thunk(model: Model, thunk, real_classifier=False):
+def run_thunk(model: Model, thunk, real_classifier=False, fuel_factor=40):
     """thunk(interp) -> value; explores all paths; returns [Out].  With real_classifier the type of constructed
     objects comes from interpreting Pregex.__infer_type itself instead of forking over all tags."""
     from ..interp import Hooks as _PlainHooks
@@ -197,7 +197,7 @@ def run_thunk(model: Model, thunk, real_classifier=False):
     stack = [[]]
     while stack:
         decisions = stack.pop()
-        it = Interp(model, _PlainHooks() if real_classifier else PregexHooks(model), decisions, fuel=FUEL * (40 if real_classifier else 1))
+        it = Interp(model, _PlainHooks() if real_classifier else PregexHooks(model), decisions, fuel=FUEL * (fuel_factor if real_classifier else 1))
         try:
             v = thunk(it)
             res = _Res("return", v, it)
